@@ -11,6 +11,8 @@ import (
 	"strings"
 	"time"
 
+	"github.com/graphql-go/graphql"
+
 	"verif/internal/build"
 	"verif/internal/core"
 	"verif/internal/gen/schemagen"
@@ -355,6 +357,67 @@ func run(c *core.Child) {
 	}
 }
 
+// caches of the schema being probed: one plain, one normalising, shared by
+// every request sent to that schema (so a normalised entry made for one
+// literal serves the next literal of the same shape).
+var (
+	cacheEnv *build.Env
+	caches   []*graphql.PlanCache
+)
+
+func cachesOf(env *build.Env) []*graphql.PlanCache {
+	if cacheEnv != env {
+		cacheEnv = env
+		caches = []*graphql.PlanCache{
+			graphql.NewPlanCache(graphql.PlanCacheOptions{MaxEntries: 32}),
+			graphql.NewPlanCache(graphql.PlanCacheOptions{MaxEntries: 32, Normalize: true}),
+		}
+	}
+	return caches
+}
+
+// cacheRoutes: the same request served by PlanCache.Get + ExecutePlan (the
+// documented hot loop), through a plain and a normalising cache. The
+// normalising cache turns literals into synthetic variables, i.e. it moves a
+// value from the literal coercion path to the variable coercion path; the
+// resolver must not notice. Demanded, relative to the run ref of the same
+// request through Do: same accept / reject verdict, same number of resolver
+// invocations, same argument map, same data.
+func cacheRoutes(c *core.Child, env *build.Env, field, route, text string, vars map[string]interface{}, ref *harness.Run, info caseInfo) {
+	refArgs, refN := argsAt(ref, field)
+	refFailed := ref.Result.Data == nil && len(ref.Result.Errors) > 0
+	for ci, cache := range cachesOf(env) {
+		mode := []string{"plain", "normalize"}[ci]
+		// the variable route has no literal to normalise and one text per probe:
+		// the plain cache makes it "one plan, many variable values"; the literal
+		// routes have a text of their own each: only the normalising cache
+		// shares anything between them
+		if (route == "variable") != (mode == "plain") {
+			continue
+		}
+		var r *harness.Run
+		if c.Guard("panic:PlanCache.Get+ExecutePlan", text, func() { r = harness.ViaCache(env, cache, text, "", vars, nil, nil) }) {
+			continue
+		}
+		c.Eval(1)
+		c.Feature("cache-route:" + mode)
+		a, n := argsAt(r, field)
+		failed := r.Result.Data == nil && len(r.Result.Errors) > 0
+		inf := info
+		inf.Route = route + " via PlanCache(" + mode + ")"
+		switch {
+		case failed != refFailed:
+			c.Violation("cache-route:verdict", fmt.Sprintf("%s: Do answers %s, the %s cache route answers %s", route, trunc(respcmp.Canon(ref.Result)), mode, trunc(respcmp.Canon(r.Result))), inf)
+		case n != refN:
+			c.Violation("cache-route:invocations", fmt.Sprintf("%s: %d resolver invocations through Do, %d through the %s cache route", route, refN, n, mode), inf)
+		case harness.CanonArgs(a) != harness.CanonArgs(refArgs):
+			c.Violation("cache-route:args", fmt.Sprintf("%s: the resolver received %s through Do and %s through the %s cache route", route, harness.CanonArgs(refArgs), harness.CanonArgs(a), mode), inf)
+		case respcmp.Canon(r.Result.Data) != respcmp.Canon(ref.Result.Data):
+			c.Violation("cache-route:data", fmt.Sprintf("%s: data %s through Do, %s through the %s cache route", route, trunc(respcmp.Canon(ref.Result.Data)), trunc(respcmp.Canon(r.Result.Data)), mode), inf)
+		}
+	}
+}
+
 func argsAt(r *harness.Run, field string) (map[string]interface{}, int) {
 	n := 0
 	var a map[string]interface{}
@@ -398,6 +461,8 @@ func runValue(c *core.Child, env *build.Env, m *model.Schema, f *model.FieldDef,
 	}
 	c.Feature("variable-status:" + exp.VarStatus.String())
 	gotArgs, ninv := argsAt(rVar, f.Name)
+	baseInfo := caseInfo{Type: tn, Default: arg.Default, Value: val, Document: textVar, Schema: m.SDL()}
+	cacheRoutes(c, env, f.Name, "variable", textVar, vars, rVar, baseInfo)
 	switch exp.VarStatus {
 	case coerce.Invalid:
 		if rVar.Result.Data != nil || len(rVar.Result.Errors) == 0 {
@@ -452,6 +517,8 @@ func runValue(c *core.Child, env *build.Env, m *model.Schema, f *model.FieldDef,
 			var r2 *harness.Run
 			if !c.Guard("panic:Do", textOmit, func() { r2 = harness.Do(env, textOmit, "", nil, nil, nil) }) {
 				c.Eval(1)
+				baseInfo.Document = textOmit
+				cacheRoutes(c, env, f.Name, "omitted", textOmit, nil, r2, baseInfo)
 				a2, _ := argsAt(r2, f.Name)
 				if harness.CanonArgs(a2) != harness.CanonArgs(gotArgs) {
 					report("omitted-vs-absent-variable", textOmit, "metamorphic:omitted-vs-variable", fmt.Sprintf("argument omitted gives %s, absent variable gives %s", harness.CanonArgs(a2), harness.CanonArgs(gotArgs)))
@@ -483,6 +550,8 @@ func runValue(c *core.Child, env *build.Env, m *model.Schema, f *model.FieldDef,
 	for _, mm := range harness.CompareInvocations(expLit, rLit.Events, true) {
 		report("literal", textLit, "mismatch:"+mm.Class, mm.Msg)
 	}
+	baseInfo.Document = textLit
+	cacheRoutes(c, env, f.Name, "literal", textLit, nil, rLit, baseInfo)
 	aLit, _ := argsAt(rLit, f.Name)
 	if harness.CanonArgs(aLit) != harness.CanonArgs(gotArgs) {
 		report("literal-vs-variable", textLit, "metamorphic:literal-vs-variable", fmt.Sprintf("literal gives resolver args %s, the same value through a variable gives %s", harness.CanonArgs(aLit), harness.CanonArgs(gotArgs)))
@@ -498,6 +567,8 @@ func runValue(c *core.Child, env *build.Env, m *model.Schema, f *model.FieldDef,
 			return
 		}
 		c.Eval(1)
+		baseInfo.Document = textDef
+		cacheRoutes(c, env, f.Name, "variable-default", textDef, nil, rDef, baseInfo)
 		aDef, _ := argsAt(rDef, f.Name)
 		if harness.CanonArgs(aDef) != harness.CanonArgs(gotArgs) {
 			report("default-vs-variable", textDef, "metamorphic:default-vs-variable", fmt.Sprintf("variable default gives resolver args %s, the same value as variable value gives %s (response %s)", harness.CanonArgs(aDef), harness.CanonArgs(gotArgs), respcmp.Canon(rDef.Result)))
@@ -709,6 +780,7 @@ func hostileLiterals(c *core.Child, env *build.Env, m *model.Schema, f *model.Fi
 		c.Feature(fmt.Sprintf("hostile-literal:valid=%v", valid))
 		c.Nontrivial(core.HashString("lit\x00" + arg.Type.String() + "\x00" + lit))
 		info := caseInfo{Type: arg.Type.String(), Value: lit, Route: "hostile-literal", Document: text}
+		cacheRoutes(c, env, f.Name, "hostile-literal", text, nil, r, info)
 		_, ninv := argsAt(r, f.Name)
 		if !valid {
 			if r.Result.Data != nil || len(r.Result.Errors) == 0 || ninv > 0 {
@@ -838,6 +910,7 @@ func partialVariables(c *core.Child, env *build.Env, m *model.Schema, f *model.F
 		c.Feature("partial-variable-object-literal")
 		c.Nontrivial(core.HashString("pv\x00" + text + harness.CanonArgs(vars)))
 		info := caseInfo{Type: arg.Type.String(), Value: vars, Route: "object literal with variable fields", Document: text, Schema: m.SDL()}
+		cacheRoutes(c, env, f.Name, "partial-variables", text, vars, run, info)
 		for _, mm := range respcmp.Compare(exp, run.Result) {
 			c.Violation("mismatch:"+mm.Class, "partial-variables: "+mm.Msg, info)
 		}
